@@ -77,9 +77,10 @@ package common
 //@   requires tp != nil && config.DefConfig != nil && config.DefConfig.Consensus != nil
 //@   modifies nothing
 //@   loop 1 invariant len(orderByFee) == it1 && forall j int :: 0 <= j && j < it1 ==> wfEntry(orderByFee[j])
-//@   loop 2 invariant 0 <= num && num == len(txList) && num <= it2 && (it2 > 0 ==> num < count || it2 == 0) && len(orderByFee) == len(tp.txList)
+//@   loop 2 invariant len(txList) <= it2 && (it2 > 0 ==> len(txList) < count || it2 == 0) && len(orderByFee) == len(tp.txList)
+//@   loop 2 invariant num == len(txList)
 //@   loop 2 invariant forall j int :: 0 <= j && j < len(txList) ==> current(txList[j], height)
-//@   loop 2 invariant num + len(oldTxList) == it2
+//@   loop 2 invariant len(txList) + len(oldTxList) == it2
 //@   loop 2 invariant forall j int :: 0 <= j && j < len(orderByFee) ==> wfEntry(orderByFee[j])
 //@   assume before "oldTxList = append(oldTxList, txEntry.Tx)" : wfEntry(txEntry) ==> txEntry != nil   -- definition instance
 //@   assert after "txList = append(txList, txEntry)" : forall j int :: 0 <= j && j < len(txList) ==> current(txList[j], height)
